@@ -36,6 +36,8 @@ type Exec struct {
 	counters      []*TrackClause
 	unsupported   []string
 	inSpec        bool
+	bufMeta       map[string]*bufMeta
+	inTypeInv     bool
 	boxedAddrs    map[string]VAddr
 	subLits       map[string]Term
 	matched       map[string]bool
@@ -974,6 +976,11 @@ func (x *Exec) subRef(obj Term, skey string, st *types.Struct, i int) Term {
 		x.allocCtr++
 		t := IntLit(-x.allocCtr)
 		x.subLits[k] = t
+		// the same object reached through a non-literal alias of the parent
+		if !strings.HasPrefix(obj.S, "new!") {
+			f := x.vc.Fun("sub|"+fieldKey(skey, st, i), []Sort{SInt}, SInt)
+			x.vc.Assert(Eq(app(SInt, f, obj), t))
+		}
 		return t
 	}
 	f := x.vc.Fun("sub|"+fieldKey(skey, st, i), []Sort{SInt}, SInt)
@@ -1027,7 +1034,7 @@ func (x *Exec) loadField(st *State, obj Term, stt *types.Struct, skey string, i 
 // to it is read (see TypeInv).
 func (x *Exec) typeInvFact(st *State, ptr Term, typ types.Type) {
 	p, ok := typ.(*types.Pointer)
-	if !ok || x.inSpec || x.top == nil {
+	if !ok || x.inTypeInv || x.top == nil {
 		return
 	}
 	n, ok := p.Elem().(*types.Named)
@@ -1038,19 +1045,25 @@ func (x *Exec) typeInvFact(st *State, ptr Term, typ types.Type) {
 	if ti == nil || ti.Except[fnKey(x.top, x.eng.home)] {
 		return
 	}
-	key := "typeinv:" + ptr.S
-	if x.vc.declared[key] || strings.Contains(ptr.S, "!q") {
+	if strings.Contains(ptr.S, "!q") {
 		return
 	}
-	x.vc.declared[key] = true
 	pred := x.eng.contracts.Preds[ti.Pred]
 	if pred == nil || len(pred.Params) != 1 {
 		return
 	}
 	env := x.newEnv(&Frame{fn: x.top, regs: map[ssa.Value]Value{}}, st, st, map[string]TV{pred.Params[0]: {VTerm{ptr}, typ}}, x.top)
-	x.inSpec = true
+	wasSpec := x.inSpec
+	x.inSpec, x.inTypeInv = true, true
 	g := env.evalBool(pred.Body)
-	x.inSpec = false
+	x.inSpec, x.inTypeInv = wasSpec, false
+	// configuration objects are immutable: the invariant is (re-)assumed in every state in which
+	// the pointer is read, i.e. once per distinct instantiation over the current heap arrays
+	key := "typeinv:" + ptr.S + "|" + g.S + "|" + st.pc.S
+	if x.vc.declared[key] {
+		return
+	}
+	x.vc.declared[key] = true
 	if env.err == nil {
 		x.vc.assumption("configuration objects of type %s satisfy %s once NewTranscoder has returned (established by the registration functions)", ti.Type, ti.Pred)
 		x.assume(st, Implies(Neq(ptr, IntLit(0)), g))
@@ -1321,6 +1334,15 @@ func (x *Exec) loadGlobal(st *State, g *ssa.Global, typ types.Type) Value {
 			x.fact("globtag:"+tg.S, Ge(tg, IntLit(0)))
 			if typ.String() == "error" {
 				x.fact("globval:"+vl.S, Ge(vl, IntLit(0)))
+			}
+			if !x.eng.isHome(g.Pkg.Pkg) {
+				// a package-level interface variable of another package (io.Discard, io.EOF, ...)
+				// does not hold a value of one of this package's types
+				var cs []Term
+				for _, t := range x.eng.concreteTypes {
+					cs = append(cs, Neq(tg, IntLit(x.eng.typeTag(t))))
+				}
+				x.fact("globext:"+tg.S, And(cs...))
 			}
 		}
 		return VIface{tg, vl}
